@@ -9,6 +9,7 @@ import (
 
 	"github.com/gofiber/fiber/v3"
 	"github.com/gofiber/fiber/v3/middleware/cache"
+	recoverer "github.com/gofiber/fiber/v3/middleware/recover"
 
 	"verif.local/sim/harness"
 	"verif.local/sim/simrt"
@@ -74,6 +75,7 @@ type cacheOp struct {
 	xextra       string
 	cacheControl string
 	panicked     bool
+	panics       bool // asks the application's callback to panic (fault stratum)
 }
 
 func cacheMain(s *simrt.Sim, info *harness.RunInfo) {
@@ -104,9 +106,16 @@ func cacheMain(s *simrt.Sim, info *harness.RunInfo) {
 		StoreResponseHeaders: storeHdr,
 		CacheControl:         cacheCtl,
 	}
+	// fault stratum: a callback of the application panics for some requests, behind a recover middleware.
+	// Such a request gets its 500; what is demanded afterwards is that every other request is still answered
+	panicFaults := (expGen || useNext) && s.Chance(150)
 	if expGen {
 		cfg.ExpirationGenerator = func(c fiber.Ctx, _ *cache.Config) time.Duration {
 			simrt.Yield(300)
+			if panicFaults && c.Get("X-Panic") == "1" {
+				s.Count("fault_callback_panic")
+				panic("ExpirationGenerator: injected panic")
+			}
 			return time.Duration(atoi(c.GetRespHeader("X-Exp"))) * time.Second
 		}
 	}
@@ -119,6 +128,11 @@ func cacheMain(s *simrt.Sim, info *harness.RunInfo) {
 	if useNext {
 		cfg.Next = func(c fiber.Ctx) bool {
 			simrt.Yield(302)
+			if panicFaults && !expGen && c.Get("X-Panic") == "1" && len(c.Response().Body()) > 0 {
+				// (the call after the handler ran, inside the section that stores the response)
+				s.Count("fault_callback_panic")
+				panic("Next: injected panic")
+			}
 			return c.Get("X-Next") == "1"
 		}
 	}
@@ -134,11 +148,12 @@ func cacheMain(s *simrt.Sim, info *harness.RunInfo) {
 		}
 	}
 	storeFaults := useSim && s.Chance(200)
-	info.Faults = storeFaults
+	info.Faults = storeFaults || panicFaults
 	var sim *harness.SimStorage
 	if useSim {
 		sim = harness.NewSimStorage(s, "cache-store")
 		sim.KeyOracle = "C14.storage-key-aliases-request-buffer"
+		sim.ValOracle = "C14.storage-value-aliases-response-buffer"
 		cfg.Storage = sim
 		// fault stratum: some Set / Get calls fail. The middleware ignores storage errors by design, so a
 		// response may then be lost or half-stored; what is still demanded is that the bytes held never
@@ -177,6 +192,9 @@ func cacheMain(s *simrt.Sim, info *harness.RunInfo) {
 
 	nexec := 0
 	app := fiber.New()
+	if panicFaults {
+		app.Use(recoverer.New())
+	}
 	app.Use(cache.New(cfg))
 	origin := func(c fiber.Ctx) error {
 		op := ops[atoi(c.Get("X-Op"))]
@@ -223,6 +241,11 @@ func cacheMain(s *simrt.Sim, info *harness.RunInfo) {
 		for j := 0; j < n; j++ {
 			op := &cacheOp{id: len(ops), client: ci, method: simrt.PickS(s, "GET", "GET", "GET", "HEAD", "POST"),
 				path: "/p" + strconv.Itoa(s.Draw(npaths)), wantStatus: 200, expS: E}
+			if s.Chance(60) {
+				// paths that end like the suffixes a cache may append to its keys
+				op.path += simrt.PickS(s, "_HEAD", "_body", "_GET", "_GET_body", "_HEAD_body")
+				s.Count("probe_path_ends_like_a_key_suffix")
+			}
 			// path is the identity of the cache key (what the KeyGenerator returns), target the request line
 			op.target = op.path
 			switch {
@@ -243,6 +266,9 @@ func cacheMain(s *simrt.Sim, info *harness.RunInfo) {
 			}
 			if useNext && s.Chance(150) {
 				op.next = true
+			}
+			if panicFaults && s.Chance(200) {
+				op.panics = true
 			}
 			if s.Chance(250) {
 				op.wantStatus = simrt.PickS(s, 404, 500, 302, 410, 201, 301)
@@ -312,6 +338,9 @@ func cacheMain(s *simrt.Sim, info *harness.RunInfo) {
 				if op.next {
 					req.Headers = append(req.Headers, [2]string{"X-Next", "1"})
 				}
+				if op.panics {
+					req.Headers = append(req.Headers, [2]string{"X-Panic", "1"})
+				}
 				op.issue, op.issueT = s.Stamp(), time.Now()
 				s.Logf("op%d issue %s %s nocache=%v nostore=%v inval=%v next=%v t=%s", op.id, op.method, op.path, op.noCache, op.noStore, op.invalidate, op.next, op.issueT.Format("05.000"))
 				func() {
@@ -342,7 +371,10 @@ func cacheMain(s *simrt.Sim, info *harness.RunInfo) {
 		return
 	}
 
-	if storeFaults {
+	if sim != nil {
+		sim.CheckVals()
+	}
+	if storeFaults || panicFaults {
 		for _, r := range ops {
 			if r.ret == 0 {
 				s.Fail("C14.progress", "op%d never returned", r.id)
